@@ -1,5 +1,135 @@
+/-
+  Model/Parallel.lean — `helpers.parallel_add`: the queue protocol of `_fill_queue` / `_worker`,
+  the merge rounds of `parallel_merging`, and the exit-code monitor, as a transition system.
+
+  * The filler puts every item, then one poison pill (`none`) per worker, into a bounded FIFO.
+  * A running worker takes the head: on an item it runs the callback (which may raise — the
+    worker logs, counts 0 records for that item and CONTINUES), on a pill it stops.
+  * `mergeRounds` is the round structure of `parallel_merging`: (2i, 2i+1) merged into 2i, an odd
+    last element carried over.
+-/
 import Model.Basic
 namespace Sketchnu
-/-- commands of the later model files (persist / npz / shm / parallel) are dispatched here -/
+
+/-- state of one worker: has it consumed its pill; the items it processed, in order -/
+structure WState (I : Type) where
+  done : Bool
+  got  : List I
+  deriving Repr
+
+structure PState (I : Type) where
+  todo    : List I            -- items the filler has not put yet
+  pills   : Nat               -- pills the filler still has to put (after all items)
+  queue   : List (Option I)   -- bounded FIFO, head first; `none` = poison pill
+  workers : List (WState I)
+  deriving Repr
+
+namespace PState
+variable {I : Type}
+
+def init (items : List I) (nWorkers : Nat) : PState I :=
+  { todo := items, pills := nWorkers, queue := [], workers := List.replicate nWorkers { done := false, got := [] } }
+
+/-- everything put, queue drained, every worker stopped -/
+def final (s : PState I) : Prop :=
+  s.todo = [] ∧ s.pills = 0 ∧ s.queue = [] ∧ ∀ w ∈ s.workers, w.done = true
+
+/-- all items processed so far, worker by worker -/
+def processed (s : PState I) : List I := s.workers.flatMap (·.got)
+
+/-- items currently in the queue -/
+def queued (s : PState I) : List I := s.queue.filterMap id
+
+/-- termination measure -/
+def measure (s : PState I) : Nat := 2 * (s.todo.length + s.pills) + s.queue.length
+
+end PState
+
+/-- one step of the protocol with queue capacity `cap` (`ctx.Queue(3 * n_workers)`) -/
+inductive PStep {I : Type} (cap : Nat) : PState I → PState I → Prop
+  | putItem (s : PState I) (x : I) (rest : List I) :
+      s.todo = x :: rest → s.queue.length < cap →
+      PStep cap s { s with todo := rest, queue := s.queue ++ [some x] }
+  | putPill (s : PState I) (p : Nat) :
+      s.todo = [] → s.pills = p + 1 → s.queue.length < cap →
+      PStep cap s { s with pills := p, queue := s.queue ++ [none] }
+  | takeItem (s : PState I) (w : Nat) (x : I) (q : List (Option I)) (ws : WState I) :
+      s.queue = some x :: q → s.workers[w]? = some ws → ws.done = false →
+      PStep cap s { s with queue := q, workers := s.workers.set w { done := false, got := ws.got ++ [x] } }
+  | takePill (s : PState I) (w : Nat) (q : List (Option I)) (ws : WState I) :
+      s.queue = none :: q → s.workers[w]? = some ws → ws.done = false →
+      PStep cap s { s with queue := q, workers := s.workers.set w { done := true, got := ws.got } }
+
+/-- reachability -/
+inductive PReach {I : Type} (cap : Nat) (items : List I) (nWorkers : Nat) : PState I → Prop
+  | init : PReach cap items nWorkers (PState.init items nWorkers)
+  | step {s t : PState I} : PReach cap items nWorkers s → PStep cap s t → PReach cap items nWorkers t
+
+/-! ### merge rounds of `parallel_merging` -/
+
+/-- one round: `(2i, 2i+1)` merged into `2i`; an odd last element is carried -/
+def mergeRound {S : Type} (merge : S → S → S) : List S → List S
+  | a :: b :: rest => merge a b :: mergeRound merge rest
+  | l => l
+
+/-- `while n_to_merge > 1` (fuel = list length suffices) -/
+def mergeRounds {S : Type} (merge : S → S → S) : Nat → List S → List S
+  | 0, l => l
+  | fuel + 1, l => if l.length ≤ 1 then l else mergeRounds merge fuel (mergeRound merge l)
+
+/-- result of `parallel_merging(sketch_array)` -/
+def parallelMerging {S : Type} (merge : S → S → S) (l : List S) : Option S :=
+  (mergeRounds merge l.length l).head?
+
+/-- merge trees over the workers' sketches -/
+inductive MTree (S : Type) where
+  | leaf : S → MTree S
+  | node : MTree S → MTree S → MTree S
+
+def MTree.eval {S : Type} (merge : S → S → S) : MTree S → S
+  | .leaf s => s
+  | .node a b => merge (a.eval merge) (b.eval merge)
+
+def MTree.leaves {S : Type} : MTree S → List S
+  | .leaf s => [s]
+  | .node a b => a.leaves ++ b.leaves
+
+/-! ### callback outcomes and record counts (C19) -/
+
+/-- what the callback did on an item: the sketch operations it performed before returning or
+    raising, and its return value (`none` = it raised; the worker then counts 0 records) -/
+structure Outcome (K : Type) where
+  ops : List (K × Nat)
+  ret : Option Nat
+
+/-- `n_records` accumulated by a worker over the items it processed -/
+def workerRecords {I K : Type} (cb : I → Outcome K) (got : List I) : Nat :=
+  (got.map fun x => (cb x).ret.getD 0).sum
+
+/-- the operations a worker applied to its sketches -/
+def workerOps {I K : Type} (cb : I → Outcome K) (got : List I) : List (K × Nat) :=
+  got.flatMap fun x => (cb x).ops
+
+/-- history of one worker's sketch -/
+def histOfOps {K : Type} (ops : List (K × Nat)) : Hist K :=
+  ops.foldl (fun h kv => Hist.add h kv.1 kv.2) Hist.new
+
+/-! ### exit-code monitor of `parallel_add` -/
+
+/-- one polling pass over the workers' exit codes: `none` = still running -/
+def pollClosed (codes : List (Option Int)) : Bool := codes.any fun c => match c with | some n => n != 0 | none => false
+def pollAnyNone (codes : List (Option Int)) : Bool := codes.any Option.isNone
+
+/-- the monitor loop over successive snapshots of exit codes: returns whether the queues were
+    closed (⇒ the next `log_queue.put` raises and `parallel_add` ends with an exception) and how
+    many snapshots were consumed; `none` if the snapshots ran out while a worker was still running -/
+def monitor : List (List (Option Int)) → Bool → Option Bool
+  | [], _ => none
+  | codes :: rest, closed =>
+    let closed' := closed || pollClosed codes
+    if pollAnyNone codes then monitor rest closed' else some closed'
+
+/-- dispatch hook kept for the driver (no extra commands here) -/
 def extraStep (_cmd : String) (_args : List String) : Option String := none
+
 end Sketchnu
